@@ -2,7 +2,7 @@
    tables, Auth/Permission.v) and with the specification (effects only under their flag; CanCall = declarative match). *)
 From Coq Require Export String.
 From NG Require Import Common.Tactics Common.HarnessLib Auth.Classify.
-From NG Require Export Auth.TableTypes Auth.Flags Auth.Permission.
+From NG Require Export Auth.TableTypes Auth.Flags Auth.Permission Auth.PermStore.
 From NG Require Import gen.Interops gen.NativeMethods.
 Open Scope N_scope.
 
@@ -23,6 +23,12 @@ Inductive case :=
 | CPerm1 (p : permission) (c : callee) (m : string) (impl : bool)
 (* Manifest.CanCall *)
 | CPerm (perms : list permission) (c : callee) (m : string) (impl : bool)
+(* the real Permission.ToStackItem of p, as a shape *)
+| CPermItem (p : permission) (it : sitem)
+(* the decision of callInternal (method safe || CanCall) taken on the STORED forms of caller and callee
+   (form 1: each Permission/Group/Method through ToStackItem/FromStackItem; 2: whole manifests; 3: whole contract
+   states through SerializeConvertible/DeserializeConvertible), for the ORIGINAL permissions [perms] *)
+| CPermStored (form : N) (perms : list permission) (c : callee) (m : string) (safe : bool) (permitted : bool)
 (* a real cross-contract call from a deployed contract with these permissions to method m (safe or not) of callee c:
    halted = the call went through *)
 | CPermCall (perms : list permission) (c : callee) (m : string) (safe : bool) (halted : bool).
@@ -101,6 +107,20 @@ Definition check_case (cs : case) : N :=
   | CPerm perms c m impl =>
       let model := Bool.eqb impl (can_call perms c m) in
       code3 model (Bool.eqb impl (may_callb perms c m))
+  | CPermItem p it =>
+      (* specification: the stored item means the original permission *)
+      let spec := match perm_from_item it with
+                  | Some q => Bool.eqb (is_allowed q (mk_callee 1 [1]) "a") (is_allowed p (mk_callee 1 [1]) "a") &&
+                              Bool.eqb (is_allowed q (mk_callee 2 [2]) "b") (is_allowed p (mk_callee 2 [2]) "b") &&
+                              Bool.eqb (is_allowed q (mk_callee 3 []) "c") (is_allowed p (mk_callee 3 []) "c") &&
+                              sitem_eqb (perm_to_item q) (perm_to_item p)
+                  | None => false
+                  end in
+      code3 (sitem_eqb (perm_to_item p) it) spec
+  | CPermStored form perms c m safe permitted =>
+      if (form =? 0) || (3 <? form) then 3 else
+      let model := Bool.eqb permitted (call_permitted safe true perms c m) in
+      code3 model (Bool.eqb permitted (safe || may_callb perms c m))
   | CPermCall perms c m safe halted =>
       let model := Bool.eqb halted (call_permitted safe true perms c m) in
       code3 model (Bool.eqb halted (safe || may_callb perms c m))
